@@ -23,6 +23,10 @@ use tokio::sync::mpsc::{Receiver, Sender};
 #[path = "tests/core_tests.rs"]
 pub mod core_tests;
 
+#[cfg(all(test, feature = "hotstuff_verif"))]
+#[path = "/verif/replay/consensus_core.rs"]
+mod verif_replay;
+
 pub struct Core {
     name: PublicKey,
     committee: Committee,
